@@ -374,6 +374,101 @@ theorem unwind_wakes_waiters {s s' : State} {t w : Tid} {T W : Task} {f : Frame}
 example : (run (init Cfg.fixed) [.spawn 0 3 false none, .lock 0, .spawn 1 3 false none, .waitC 1, .cancel 0, .wake 1, .lock 1]).map
     (fun s => ((s.tasks 0).isNone, (s.comp 3).map (·.owner))) = some (true, some 1) := by decide
 
+/-! ### the undo of a registration keeps the order of the others
+
+`register_callee` records the callees of a computing node in the order its executor reads them (`regs`, newest
+first); the engine replays them in that order when it repairs the node.  An aborted read (`UndoRegisterCallee`
+dropped while armed: the read was cancelled — by the drop of the whole task, or by the executor itself) removes its
+own registration and nothing else: what is left is the old list with one element missing, in the same relative
+order.  In the code: `CalleeOrder::abort_callee` is `order.remove(i)`; a `swap_remove(i)` contradicts
+`eraseReg_sublist` (it moves the last registration into the freed slot).  The hook trace does not carry the
+order vector: for the code this part is judged by the oracle only (harness family "executor drops one of its own
+reads": guard read before guarded read, guard flipped afterwards). -/
+
+/-- removing an aborted registration leaves the remaining registrations in their relative order -/
+theorem eraseReg_sublist (regs : List (Key × Bool)) (c : Key) : (eraseReg regs c).Sublist regs :=
+  List.erase_sublist
+
+/-- … and removes exactly that one registration -/
+theorem eraseReg_length (regs : List (Key × Bool)) (c : Key) (h : (c, true) ∈ regs) :
+    (eraseReg regs c).length = regs.length - 1 := by
+  simp [eraseReg, List.length_erase_of_mem h]
+
+/-- every other registration is still there -/
+theorem eraseReg_mem_of_ne (regs : List (Key × Bool)) (c : Key) (x : Key × Bool) (hx : x ∈ regs) (hne : x ≠ (c, true)) :
+    x ∈ eraseReg regs c := by
+  simpa [eraseReg] using (List.mem_erase_of_ne hne).mpr hx
+
+theorem unregAt_regs_sublist (comp : Key → Option Entry) (a x k : Key) (e' : Entry) (h : unregAt comp a x k = some e') :
+    ∃ e, comp k = some e ∧ e'.owner = e.owner ∧ e'.regs.Sublist e.regs := by
+  unfold unregAt at h
+  cases ha : comp a with
+  | none => rw [ha] at h; exact ⟨e', h, rfl, List.Sublist.refl _⟩
+  | some ea =>
+    rw [ha] at h
+    by_cases hk : k = a
+    · subst hk
+      simp [upd] at h
+      subst h
+      exact ⟨ea, ha, rfl, eraseReg_sublist _ _⟩
+    · simp [upd, hk] at h
+      exact ⟨e', h, rfl, List.Sublist.refl _⟩
+
+theorem dropFrame_regs_sublist (f : Frame) (comp : Key → Option Entry) (bpl : Key → Option Tid) (k : Key) (e' : Entry)
+    (h : (dropFrame f comp bpl).1 k = some e') : ∃ e, comp k = some e ∧ e'.owner = e.owner ∧ e'.regs.Sublist e.regs := by
+  unfold dropFrame at h
+  have base : ∀ e'', (if f.lock = true then upd comp f.key none else comp) k = some e'' → comp k = some e'' := by
+    intro e'' h1
+    split at h1
+    · by_cases hk : k = f.key
+      · simp [upd, hk] at h1
+      · simpa [upd, hk] using h1
+    · exact h1
+  cases hu : f.undo with
+  | none => rw [hu] at h; exact ⟨e', base _ h, rfl, List.Sublist.refl _⟩
+  | some c =>
+    rw [hu] at h
+    obtain ⟨e, he, ho, hs⟩ := unregAt_regs_sublist _ _ _ _ _ h
+    exact ⟨e, base _ he, ho, hs⟩
+
+theorem dropFrames_regs_sublist (fs : List Frame) (comp : Key → Option Entry) (bpl : Key → Option Tid) (k : Key) (e' : Entry)
+    (h : (dropFrames fs comp bpl).1 k = some e') : ∃ e, comp k = some e ∧ e'.owner = e.owner ∧ e'.regs.Sublist e.regs := by
+  induction fs generalizing comp bpl with
+  | nil => exact ⟨e', h, rfl, List.Sublist.refl _⟩
+  | cons f fs ih =>
+    simp only [dropFrames] at h
+    obtain ⟨e1, he1, ho1, hs1⟩ := ih _ _ h
+    obtain ⟨e, he, ho, hs⟩ := dropFrame_regs_sublist f comp bpl k e1 he1
+    exact ⟨e, he, ho1.trans ho, hs1.trans hs⟩
+
+/-- **cancel_preserves_registration_order**: whatever `cancel t` removes (the entries `t` owns, the armed
+    registrations of the reads `t` had in flight), every computing entry that survives has its registered callees
+    in the same relative order as before — the undo of an aborted read never permutes the other registrations -/
+theorem cancel_preserves_registration_order {s s' : State} {t : Tid} (hc : step s (.cancel t) = some s')
+    {k : Key} {e' : Entry} (h : s'.comp k = some e') :
+    ∃ e, s.comp k = some e ∧ e'.owner = e.owner ∧ e'.regs.Sublist e.regs := by
+  simp only [step] at hc
+  cases hT : s.tasks t with
+  | none => simp [hT] at hc
+  | some T =>
+    simp only [hT] at hc
+    split at hc
+    · cases hc
+      have hdb : ∀ b, (dropBatch s b).comp = s.comp := by intro b; cases b <;> rfl
+      unfold cancelTask at h
+      split at h
+      · -- a session task: the computing table is untouched
+        cases hpc : T.pc <;> simp [hpc, endTask, setTask, hdb] at h <;> exact ⟨e', h, rfl, List.Sublist.refl _⟩
+      · cases hfr : T.frames with
+        | nil => simp [hfr, endTask] at h; exact ⟨e', h, rfl, List.Sublist.refl _⟩
+        | cons top rest =>
+          simp only [hfr] at h
+          split at h
+          · exact dropFrames_regs_sublist _ _ _ _ _ (by simpa using h)
+          · have := dropFrames_regs_sublist (top :: rest) (dropBatch s T.batch).comp (dropBatch s T.batch).bpl k e' (by simpa [endTask] using h)
+            simpa [hdb] using this
+    · cases hc
+
 /-- a future can be dropped at every await point: `cancel` is enabled for every live task that still has a caller -/
 theorem cancel_always_enabled {s : State} {t : Tid} {T : Task} (hT : s.tasks t = some T) (hd : T.detached = false) :
     (step s (.cancel t)).isSome = true := by
